@@ -31,6 +31,20 @@ func setInt(e Ev, k string, v int) {
 	}
 }
 
+// scribbleChanges overwrites a returned byte slice in place and reports whether a second call then returns something
+// else than the first one did: the result must not alias storage that later calls read
+func scribbleChanges(first []byte, again func() []byte) bool {
+	want := string(first)
+	for i := range first {
+		first[i] ^= 0x20
+	}
+	got := string(again())
+	for i := range first {
+		first[i] ^= 0x20
+	}
+	return got != want
+}
+
 func errStr(err error) string {
 	if err == nil {
 		return ""
@@ -110,9 +124,11 @@ func init() {
 		e.setDec("rr", r.Canonical())
 	}
 	execTable["MarshalBinary"] = func(e Ev) {
-		b, err := e.dec("x").MarshalBinary()
+		x := e.dec("x")
+		b, err := x.MarshalBinary()
 		e["bs"] = ints(b)
 		e["err"] = errStr(err)
+		e["alias"] = scribbleChanges(b, func() []byte { r, _ := x.MarshalBinary(); return r })
 	}
 	execTable["UnmarshalBinary"] = func(e Ev) {
 		d := e.dec("prev")
